@@ -21,7 +21,7 @@ def run(tier, seed, replay=None):
         ck.mc(DIR, "Search", "NC_search_reject.cfg", expect_violation="BestOfAllSeen")
         ck.mc(DIR, "Search", "NC_search_sign.cfg", expect_violation="ReturnFaithful")
         if tier == "thorough":
-            ck.mc(DIR, "Search", "MC_search4.cfg", timeout=3000)
+            ck.mc(DIR, "Search", "MC_search4.cfg", timeout=14400)
         per = 60 if tier == "quick" else 600
         cases = [drv.gen(rng, s) for s in drv.DISCRETE + drv.CONT1 + drv.CONT2 for _ in range(per)]
     res = run_tasks("search", "run_search", cases, timeout=120)
